@@ -49,6 +49,10 @@ func VerifyFuncX(P *Program, DB *ContractDB, fc *FuncContract, safety bool, excu
 	}
 	B := NewBuilder(DB.Events)
 	t := &Trans{P: P, DB: DB, B: B, arrSort: map[string]string{}, ordCnt: map[string]int{}, topKey: fc.Key, fc: fc, safety: safety, trusted: map[string]bool{}}
+	if fc.NoSafety != "" {
+		t.safety = false
+		t.trust("no-panic obligations not generated for " + fc.Key + ": " + fc.NoSafety)
+	}
 	st := t.newState("0")
 	t.entry = st.clone()
 	f := t.newFrame(fn, true, 0)
@@ -173,6 +177,36 @@ func VerifyFuncX(P *Program, DB *ContractDB, fc *FuncContract, safety bool, excu
 			}
 			f.addObl("ensures", e.Name, r.cond, g, e, r.ret.Pos(), clauseProps(fc, e))
 		}
+		// declared trace effect: the trace at the return equals the entry trace extended by the `emits` clauses
+		if len(fc.Emits) > 0 {
+			envEntry := f.baseEnv(f.entry)
+			for k, v := range lets {
+				envEntry.vars[k] = v
+			}
+			expT, expN := f.entry.trace, f.entry.ntrace
+			for _, em := range fc.Emits {
+				ev, err := env.eventTerm(em.Event, em.Args)
+				if err != nil {
+					res.Err = fmt.Errorf("%s: emits %s: %v", fc.Where, em.Event, err)
+					return res
+				}
+				c := "true"
+				if em.Cond != "" {
+					c, err = envEntry.compileBool(em.Cond)
+					if err != nil {
+						res.Err = fmt.Errorf("%s: emits %s: %v", fc.Where, em.Event, err)
+						return res
+					}
+				}
+				expT, expN = ite(c, fmt.Sprintf("(store %s %s %s)", expT, expN, ev), expT), ite(c, fmt.Sprintf("(+ %s 1)", expN), expN)
+			}
+			goal := []string{fmt.Sprintf("(= %s %s)", r.st.ntrace, expN)}
+			for j := range fc.Emits {
+				idx := fmt.Sprintf("(+ %s %d)", f.entry.ntrace, j)
+				goal = append(goal, implies(fmt.Sprintf("(< %s %s)", idx, expN), fmt.Sprintf("(= (select %s %s) (select %s %s))", r.st.trace, idx, expT, idx)))
+			}
+			f.addObl("emits", "trace-effect", r.cond, and(goal...), nil, r.ret.Pos(), fc.Props)
+		}
 		// frame
 		if fc.HasMod {
 			if err := f.frameObligations(fc, envPre, r, st); err != nil {
@@ -260,7 +294,7 @@ func (f *frame) frameObligations(fc *FuncContract, envPre *exprEnv, r retInfo, e
 		goal := implies(hyp, fmt.Sprintf("(= (select %s %s) (select %s %s))", cur, p, old, p))
 		f.addObl("frame", name, r.cond, goal, nil, r.ret.Pos(), fc.Props)
 	}
-	if !traceOK && r.st.ntrace != f.entry.ntrace {
+	if !traceOK && len(fc.Emits) == 0 && r.st.ntrace != f.entry.ntrace {
 		f.addObl("frame", "trace", r.cond, fmt.Sprintf("(= %s %s)", r.st.ntrace, f.entry.ntrace), nil, r.ret.Pos(), fc.Props)
 	}
 	return nil
